@@ -123,8 +123,10 @@ def run(ch, config, res):
                 elif op == "putscript":
                     counter[0] += 1
                     body = "# body %d\r\nkeep;\r\n" % counter[0]
-                    v = wl.weighted("variant", [6, 1, 1])
-                    if v == 1:
+                    v = wl.weighted("variant", [6, 1, 1, 1])
+                    if v == 3:
+                        body += "\ufeff# bom line\r\nx\u2028y\r\n"
+                    elif v == 1:
                         body += "INVALID\r\n"
                     elif v == 2:
                         body += "#" + "x" * 130 + "\r\n"
